@@ -136,6 +136,19 @@ CHECKS = {
         technique="Coq proof (structural lemmas over the transition engine, induction on the chain "
                   "fuel) + differential correspondence evaluated by vm_compute",
         design_ref="DESIGN.md section 6/C03"),
+    'C19': dict(
+        text="Theorems (Props/C19.v): timestr() is the exact inverse of convert() for every integer "
+             "below 2^53 (string level: rendering with the library's decimal printer, parsing with "
+             "the model's recogniser); convert() of EVERY traditional string - any subset of units in "
+             "order, any letter case, white space before/inside/after, numbers of any length - is the "
+             "documented unit arithmetic; empty input, a fraction in a larger unit, non-zero years/"
+             "months are errors; time_period on None/negative/other. The model rounds like IEEE "
+             "doubles, so the correspondence is bit-exact on every case (also timestr/timestr_approx "
+             "at the rounding boundaries); the timestr_approx error bound is evaluated by the monitor "
+             "on every observed string (its unbounded proof is not done).",
+        technique="Coq proof (string-level parsing lemmas, decimal round trip, exact small-integer "
+                  "arithmetic) + bit-exact differential correspondence evaluated by vm_compute",
+        design_ref="DESIGN.md section 6/C19"),
 }
 
 NOT_YET = "check not built yet in this round (planned: Coq model + theorems + correspondence, see DESIGN.md section 6)"
